@@ -55,6 +55,17 @@ pub struct DgramRec {
     pub bytes: Vec<u8>,
 }
 
+/// a datagram as it entered the endpoint (before routing): only the head is kept
+#[derive(Clone, Debug)]
+pub struct RxDgramRec {
+    pub seq: u64,
+    pub ep: u32,
+    pub t_ns: u64,
+    pub remote_port: u16,
+    pub head: Vec<u8>,
+    pub len: usize,
+}
+
 #[derive(Clone, Debug)]
 pub enum Ev {
     PacketSent { space: Space, pn: u64, len: usize, mode: u8 },
@@ -144,6 +155,7 @@ pub struct Obs {
     pub tx: Vec<PktRec>,
     pub rx: Vec<PktRec>,
     pub tx_dgrams: Vec<DgramRec>,
+    pub rx_dgrams: Vec<RxDgramRec>,
     pub evs: Vec<EvRec>,
     pub ep_evs: Vec<(u64, u32, u64, EpEv)>,
     /// byzantine rules that actually fired: (ep, conn, rule description, seq)
@@ -196,6 +208,33 @@ impl WireMonitor {
 }
 
 impl Interceptor for WireMonitor {
+    fn intercept_rx_datagram<'a>(
+        &mut self,
+        _subject: &Subject,
+        datagram: &Datagram,
+        payload: DecoderBufferMut<'a>,
+    ) -> DecoderBufferMut<'a> {
+        let slice = payload.into_less_safe_slice();
+        {
+            let mut o = self.obs.lock().unwrap();
+            let seq = o.next_seq();
+            let remote_port = match &datagram.remote_address {
+                s2n_quic_core::event::api::SocketAddress::IpV4 { port, .. } => *port,
+                s2n_quic_core::event::api::SocketAddress::IpV6 { port, .. } => *port,
+                _ => 0,
+            };
+            o.rx_dgrams.push(RxDgramRec {
+                seq,
+                ep: self.ep,
+                t_ns: ts_ns(datagram.timestamp),
+                remote_port,
+                head: slice[..slice.len().min(64)].to_vec(),
+                len: slice.len(),
+            });
+        }
+        DecoderBufferMut::new(slice)
+    }
+
     fn intercept_rx_payload<'a>(
         &mut self,
         subject: &Subject,
